@@ -7,6 +7,7 @@
 //	<id> e2e <mode> <commitmode> ; <tok>,<tok>,… | ok or HANG:…+LEAK:g=…,c=…+… | <tags>
 //	<id> det <mode> <commitmode> <N> <k> <j> <qcap> | msg,…,nil,D,msg,…,eof,… | det,mode=…,buffered=…[,late-msg]
 //	<id> cac <commitmode> <n> | <cp>:<ctx>:<nil>:<oth> | cac,qcap=…[,late-commit-not-cp]
+//	<id> nlv <hbcode> <joincode> | rejoin=<m>,lv=<n>,members=<n> | nlv,hb=…,join=…,later-joins=normal[,retried]
 //
 // Timeline tokens (one total order): c<cid>:<f|r|m|t>  x<cid>  r<cid>:<msg|nil|eof|cp|ctx|oth>
 // C<k> D<k>  q<api>:<m>  j<m>.  A worker that reported HANG or LEAK exits (code 3) and the parent
@@ -120,6 +121,17 @@ func plan(seed int64, n int) []scen {
 			l[i].kind = tKinds[rng.Intn(len(tKinds))]
 		}
 	}
+	// op nlv (replay of "no LeaveGroup after a failed re-join"): the last two ordinary mode g
+	// e2e entries become nlv scenarios; every other entry keeps its id, sub-seed and kind.
+	if n >= 20 {
+		codes := []string{"f", "10"} // assigned from the back: the first nlv of the run gets 0x10
+		for i := len(l) - 1; i >= front && len(codes) > 0; i-- {
+			if l[i].op == "e2e" && l[i].mode == "g" {
+				l[i].op, l[i].mode, l[i].kind, l[i].variant = "nlv", "", "", codes[0]
+				codes = codes[1:]
+			}
+		}
+	}
 	return l
 }
 
@@ -130,6 +142,8 @@ func argPrefix(sc scen) string {
 		return sc.mode + " " + commitModeOf(sc) + " ; ."
 	case "det":
 		return detArgs(sc)
+	case "nlv":
+		return nlvArgs(sc)
 	}
 	return cacArgs(sc)
 }
@@ -145,6 +159,8 @@ func runScenario(sc scen) result {
 		return runDet(sc)
 	case "cac":
 		return runCac(sc)
+	case "nlv":
+		return runNlv(sc)
 	}
 	switch {
 	case sc.mode == "t":
